@@ -62,6 +62,17 @@ func (c *ctlContext) reuse(prev *ctlFilter, prevMeta, m *ctlMeta) *ctlFilter {
 	return f
 }
 
+// ---- loopalias: one map for all elements.
+func ctlLoopAlias(n int) []map[string]int {
+	out := make([]map[string]int, n)
+	m := map[string]int{}
+	for i := range out {
+		m["i"] = i
+		out[i] = m
+	}
+	return out
+}
+
 // ---- cacheinputs: a per-loop cache keyed by the storage location although
 // the value also depends on the record's kind.
 func ctlCacheInputs(data []byte, n int) []string {
@@ -103,6 +114,7 @@ func CtlUse(m *ctlMeta, xs []int, data []byte) (*ctlFilter, []int, []byte) {
 	c := &ctlContext{}
 	a, _ := ctlSliceAlias(xs, 3)
 	_ = ctlCacheInputs(data, 1)
+	_ = ctlLoopAlias(2)
 	_ = c.reuse(nil, m, m)
 	(&ctlClosure{}).close(func(int) []int { return nil })
 	return c.filter(m), a, ctlNarrowArith(2, 3, data)
